@@ -30,6 +30,13 @@ fn main() {
                 }
             }
         }
+        Some("replay-traces") => {
+            let m = args.pos[1].clone();
+            match factory(&m) {
+                Some(f) => core::cmd_replay_traces(&m, &f, &args),
+                None => 2,
+            }
+        }
         Some("replay-one") => {
             let m = args.pos[1].clone();
             match factory(&m) {
